@@ -276,6 +276,29 @@ def resize(repo: Repo) -> List[Ob]:
             good = (mode is None or (isinstance(mode, ast.Constant) and mode.value == "constant")) and (cv is None or (isinstance(cv, ast.Constant) and cv.value == 0))
             (obs.append(ok("RESIZE", fi, f"pad#{i}", P, c, "grown levels are filled with zeros")) if good else
              obs.append(bad("RESIZE", fi, f"pad#{i}", P, c, "growing the Fock space pads with something other than zeros: population appears in levels that were empty")))
+            # (d') which axis grows: inside a product space the Fock's axis is named by its index; a pad whose axes are fixed in the source
+            # (the flat stored array padded at its end = "the Fock is the leading factor") presumes an order that has to be established
+            if fi.cls is not None and fi.cls.name == "ProductState" and len(c.args) >= 2:
+                cfgx = c.args[1]
+                by_index = any(isinstance(y, ast.Attribute) and y.attr == "index" for y in ast.walk(cfgx))
+                if isinstance(cfgx, ast.Name):
+                    by_index = by_index or any(isinstance(st_, ast.Assign) and isinstance(st_.targets[0], ast.Subscript) and src(st_.targets[0].value) == cfgx.id
+                                               and any(isinstance(y, ast.Attribute) and y.attr == "index" for y in ast.walk(st_.targets[0].slice)) for st_ in walk_no_nested(fn))
+                    by_index = by_index or any(isinstance(st_, ast.Assign) and len(st_.targets) == 1 and src(st_.targets[0]) == cfgx.id
+                                               and any(isinstance(y, ast.Attribute) and y.attr == "index" for y in ast.walk(st_.value)) for st_ in walk_no_nested(fn))
+                key_ax = f"pad-axis#{i}"
+                if by_index:
+                    obs.append(ok("RESIZE", fi, key_ax, PC, c, "the padded axis is the one the Fock's index names"))
+                else:
+                    from .esc import order_established
+                    pn = cfg.node_containing(c)
+                    local, n_callers, missing = order_established(repo, fi, pn, cfg)
+                    good_o = local or (n_callers > 0 and not missing)
+                    (obs.append(ok("RESIZE", fi, key_ax, PC, c, "fixed-axis padding, the storage order is established by every caller")) if good_o else
+                     obs.append(bad("RESIZE", fi, key_ax, PC + ("C01", "C11"), c,
+                                    f"`{src(c)[:60]}` grows axes fixed in the source (the end of the stored array = the *leading* factor), but on which axis the Fock space sits is decided by state_objs at run time and "
+                                    + (f"{', '.join(missing)} reach(es) this method without `self.reorder(<that Fock>)` on every path" if missing else "no caller establishes the order")
+                                    + ": growing a Fock space that is not the leading member scrambles the amplitudes, silently because the sizes still agree")))
     if n_commit < 6:
         raise AnalysisError(f"RESIZE: {n_commit} dimension commits (floor 6)")
     # routing of the composite entry: reorder(fock) precedes the product-space resize (fock.index[1] is used as axis)
